@@ -100,7 +100,8 @@ def run_cases(ck, res, n_cases, n_interval):
                     break
         if len(goals) < n_interval and op in ('grad', 'div', 'laplacian'):
             venv = dict(zip(coords, pts[0]))
-            goals.append(enga.interval_goal(f'{name}#{ci}', res[name]['terms'][0], venv, {}, probes, out[0][0], scale * 10))
+            goals.append(enga.interval_goal(f'{name}#{ci}', res[name]['terms'][0], venv, {}, probes, out[0][0], scale * 10,
+                                            gen=('Gen_C09', name, 'term_0' if res[name]['multi'] else 'term'), names=res[name]['names']))
     # ---- (b) the property itself: Cartesian fields re-expressed in curvilinear components
     for ci in range(n_cases):
         system = ['spherical', 'cylindrical'][ci % 2]
